@@ -797,7 +797,11 @@ func (s *Subscription) handleReaccess(t *rescache.Throttle) {
 	}
 
 	if verifhook.Enabled && s.flags&flagAccessCalled != 0 {
-		verifhook.Site("reaccess.inflight", s.c.CID(), s.rid)
+		if s.queueFlag&queueReasonReaccess != 0 {
+			verifhook.Site("reaccess.inflight.recheck", s.c.CID(), s.rid)
+		} else {
+			verifhook.Site("reaccess.inflight", s.c.CID(), s.rid)
+		}
 	}
 	s.queueEvents(queueReasonReaccess)
 	s.loadAccess(func(a *rescache.Access) {
